@@ -150,8 +150,74 @@ def _child(mode, family, path, same_seed=False):
     print(json.dumps({"ok": True, "fails": out[:5], "n": len(pool)}))
 
 
+SOLVER_SCENARIOS = ["replacement-fp", "replacement-bv", "solver-annotated", "composite-groups", "hybrid", "solver-strings"]
+
+
+def _solver_scenario(cl, name):
+    """returns (solver, [(label, query function)]); queries enumerate ALL values (n exceeds the domain), so answers are sets"""
+    x, y = cl.BVS("sx", 3, explicit_name=True), cl.BVS("sy", 3, explicit_name=True)
+    fx = cl.FPS("sf", cl.fp.FSORT_DOUBLE, explicit_name=True)
+    one = cl.FPV(1.0, cl.fp.FSORT_DOUBLE)
+    RNE = cl.fp.RM.RM_NearestTiesEven
+    if name == "replacement-fp":
+        s = cl.SolverReplacement()
+        s.add_replacement(fx, cl.FPV(1.5, cl.fp.FSORT_DOUBLE))
+        s.add(cl.ULE(x, 5))
+        qs = [("fx+1", lambda s: sorted(s.eval(cl.fpAdd(RNE, fx, one), 3))), ("x", lambda s: sorted(s.eval(x, 20))), ("fx<2", lambda s: s.satisfiable([cl.fpLT(fx, cl.FPV(2.0, cl.fp.FSORT_DOUBLE))]))]
+    elif name == "replacement-bv":
+        s = cl.SolverReplacement()
+        s.add(x == 3)
+        s.add(cl.ULE(y, x))
+        qs = [("x+1", lambda s: sorted(s.eval(x + 1, 20))), ("y", lambda s: sorted(s.eval(y, 20))), ("max y", lambda s: s.max(y))]
+    elif name == "solver-annotated":
+        s = cl.Solver()
+        ax = x.annotate(cl.annotation.UninitializedAnnotation())
+        s.add(cl.ULE(ax, 5), ax != 2)
+        s.eval(x, 3)
+        qs = [("x", lambda s: sorted(s.eval(x, 20))), ("ax+y", lambda s: sorted(s.eval(ax + y, 20))), ("min", lambda s: s.min(x, signed=True))]
+    elif name == "composite-groups":
+        s = cl.SolverComposite()
+        s.add(cl.ULE(x, 4), cl.UGE(y, 6))
+        s.eval(x, 2)
+        qs = [("x", lambda s: sorted(s.eval(x, 20))), ("y", lambda s: sorted(s.eval(y, 20))), ("x+y", lambda s: sorted(s.eval(x + y, 20))), ("sat x==y", lambda s: s.satisfiable([x == y]))]
+    elif name == "hybrid":
+        s = cl.SolverHybrid()
+        s.add(cl.ULE(x, 4), fx == cl.FPV(2.5, cl.fp.FSORT_DOUBLE))
+        qs = [("x", lambda s: sorted(s.eval(x, 20))), ("fx", lambda s: sorted(s.eval(fx, 3))), ("max", lambda s: s.max(x))]
+    else:
+        t = cl.StringS("st", explicit_name=True)
+        s = cl.SolverStrings()
+        s.add(t == cl.StringV("a\x00\\u{41}"), cl.ULE(x, 1))
+        qs = [("t", lambda s: sorted(s.eval(t, 3))), ("len", lambda s: sorted(s.eval(cl.StrLen(t), 3))), ("x", lambda s: sorted(s.eval(x, 20)))]
+    return s, qs
+
+
+def _solver_child(mode, name, path):
+    import claripy
+
+    s, qs = _solver_scenario(claripy, name)
+    if mode == "produce":
+        answers = {lab: repr(q(s)) for lab, q in qs}
+        with open(path, "wb") as f:
+            pickle.dump(s, f, -1)
+        print(json.dumps({"answers": answers}))
+        return
+    with open(path, "rb") as f:
+        s2 = pickle.load(f)
+    answers = {}
+    for lab, q in qs:
+        try:
+            answers[lab] = repr(q(s2))
+        except Exception as ex:  # noqa: BLE001
+            answers[lab] = f"raised {type(ex).__name__}: {str(ex)[:80]}"
+    print(json.dumps({"answers": answers}))
+
+
 def obligations(tier):
     out = []
+    for name in SOLVER_SCENARIOS:
+        for s1, s2 in (SEED_PAIRS[1:3] if tier == "quick" else SEED_PAIRS):
+            out.append((f"xsolver:{name}:{s1}-{s2}", {"kind": "xsolver", "name": name, "s1": s1, "s2": s2}))
     for fam in FAMILIES:
         out.append((f"inproc:{fam}", {"kind": "inproc", "family": fam}))
         for s1, s2 in (SEED_PAIRS if tier != "quick" else SEED_PAIRS[:3]):
@@ -163,9 +229,30 @@ def run_obligation(oid, params, tier):
     import claripy
 
     res = common.result(oid, "holds")
-    fam = params["family"]
+    fam = params.get("family")
     fail = None
-    if params["kind"] == "inproc":
+    if params["kind"] == "xsolver":
+        root = os.path.dirname(os.path.dirname(os.path.abspath(__file__)))
+        repo = os.environ.get("VERIF_REPO", "/repo")
+        with tempfile.TemporaryDirectory(prefix="c18x_") as td:
+            path = os.path.join(td, "solver.pickle")
+            outs = []
+            for mode, seed in (("produce", params["s1"]), ("consume", params["s2"])):
+                env = dict(os.environ, PYTHONPATH=root + os.pathsep + repo, PYTHONHASHSEED=seed)
+                p = subprocess.run([sys.executable, "-c", f"from harness import p_c18x; p_c18x._solver_child({mode!r}, {params['name']!r}, {path!r})"], env=env,
+                                   capture_output=True, text=True, timeout=300)
+                if p.returncode != 0:
+                    fail = f"{mode} process (PYTHONHASHSEED={seed}) failed: {p.stderr[-300:]}"
+                    break
+                outs.append(json.loads(p.stdout.strip().splitlines()[-1])["answers"])
+            if not fail:
+                res["paths"] = len(outs[0])
+                for lab in outs[0]:
+                    if outs[0][lab] != outs[1].get(lab):
+                        fail = (f"solver pickled with PYTHONHASHSEED={params['s1']} and unpickled with {params['s2']}: query {lab} answered {outs[1].get(lab)}, "
+                                f"the original answered {outs[0][lab]}")
+                        break
+    elif params["kind"] == "inproc":
         pool = build_pool(claripy, fam)
         res["paths"] = len(pool)
         blob = pickle.dumps([e for _, e in pool], -1)
